@@ -75,6 +75,8 @@ class IdxV(Val):
       return ShapeIV(self)
     if name == 'at':
       return AtV(self)
+    if name == 'ndim':
+      return len(self.axes)
     raise Unsupported(f'array.{name}')
 
   def length(self, ctx):
@@ -564,6 +566,77 @@ def v_per_domain(p, eng):
   p.verify('PerDomainMetric', eng, body)
 
 
+def v_per_domain_fp(p, eng):
+  """Same contract in float32 with a base statistic that may be +-inf (a target under a -inf logit mask): selecting the
+  row must not do arithmetic on the unselected rows (0 * inf = NaN would poison every other domain)."""
+  from .C11 import FPV, fpv, F32
+  from .C05 import c_tree_map_stats
+
+  class FA(FPV):
+    def getattr(self, ctx, name):
+      if name == 'ndim':
+        return 0
+      return super().getattr(ctx, name)
+
+  class MaskV(Val):
+    """one_hot(domain_id, num_domains) at row D: boolean (dtype=jnp.bool_) or 0.0 / 1.0"""
+
+    def __init__(self, c, as_bool):
+      self.c, self.as_bool = c, as_bool
+
+    def num(self):
+      return z3.If(self.c, z3.FPVal(1.0, F32), z3.FPVal(0.0, F32))
+
+    def binop(self, ctx, op, other, reflected):
+      return FA(self.num()).binop(ctx, op, other, reflected)
+
+  def body(ctx):
+    module_frame(ctx, M)
+    D, did = z3.Int('domain'), z3.Int('domain_id')
+    ba, bw = z3.FP('base_accum32', F32), z3.FP('base_weight32', F32)
+    ctx.model_vars.update(domain=D, domain_id=did, base_accum=ba, base_weight=bw)
+    ctx.assume(z3.And(z3.Not(z3.fpIsNaN(ba)), z3.Not(z3.fpIsNaN(bw)), z3.Not(z3.fpIsInf(bw))))
+    MS = ctx.lookup('MeanStat')
+
+    class BaseMetric(Val):
+      def method(self, c, name, args, kwargs):
+        if name == 'evaluate_example':
+          return c.alloc(ObjCell(MS, dict(accum=FA(ba), weight=FA(bw)), label='base stat'))
+        if name == 'zero':
+          return c.alloc(ObjCell(MS, dict(accum=FA(z3.FPVal(0.0, F32)), weight=FA(z3.FPVal(0.0, F32))), label='zero'))
+        raise Unsupported(name)
+
+    def one_hot(c, x, n, dtype=None):
+      xv = x.val if hasattr(x, 'val') else x
+      return MaskV(to_z3(xv) == D, dtype is not None and 'bool' in str(dtype))
+
+    def where(c, m, a, b):
+      cond = m.c if isinstance(m, MaskV) else m
+      return FA(z3.If(cond, fpv(a).t, fpv(b).t))
+    eng.globals['jax'].attrs['nn'].attrs['one_hot'] = Handler(one_hot, 'one_hot')
+    eng.globals['apply_mask'] = Handler(where, 'apply_mask')
+    eng.globals['jnp'].attrs['where'] = Handler(where, 'jnp.where')
+    eng.globals['jnp'].attrs['bool_'] = 'bool_'
+    eng.globals['jax'].attrs['tree_util'] = Module('jax.tree_util', {'tree_map': Handler(c_tree_map_stats, 'tree_map')})
+    eng.globals['jnp'].attrs['expand_dims'] = Handler(lambda c, a, axis=None: a, 'expand_dims')
+    cls = ctx.lookup('PerDomainMetric')
+    selfr = ctx.alloc(ObjCell(cls, dict(base=BaseMetric(), num_domains=z3.Int('num_domains'), domain_id_key='domain_id'),
+                              owner='param'))
+    ex = ctx.alloc(DictCell([('domain_id', IdxV(did, ()))], owner='param'))
+    st = eng.call_method(ctx, selfr, 'evaluate_example', [ex, IdxV(SC(z3.IntVal(0), CLS), ('cls',))])
+    f = stat_fields(ctx, st)
+    ok = isinstance(f.get('accum'), FPV) and isinstance(f.get('weight'), FPV)
+    ctx.oblige('perdomain.fp.shape', ok)
+    if not ok:
+      return
+    zero = z3.FPVal(0.0, F32)
+    ctx.oblige('perdomain.restrict.fp', z3.And(z3.fpEQ(f['accum'].t, z3.If(did == D, ba, zero)),
+                                               z3.fpEQ(f['weight'].t, z3.If(did == D, bw, zero))),
+               detail="float32, base statistic possibly +-inf: row d is the base statistic if d is the example's domain, else exactly 0 "
+                      '(no NaN from 0 * inf in the other domains)')
+  p.verify('PerDomainMetric[float32]', eng, body)
+
+
 def build(p):
   D = 'native/C14.py'
   p.native('', D, 'metrics')
@@ -576,6 +649,9 @@ def build(p):
   e2 = Engine(globals14())
   e2.sources = [M, U]
   v_per_domain(p, e2)
+  e3 = Engine(globals14())
+  e3.sources = [M, U]
+  v_per_domain_fp(p, e3)
   p.trust('T-JNP: argmax returns the FIRST maximal index; argsort is stable ascending; x[::-1] reverses; x[:k] follows Python '
           'slice clamping; any(sorted[:kept] == t) is membership of t among the kept leading positions; one_hot, log_softmax, '
           '.at[i, j].set(v)',
